@@ -176,6 +176,31 @@ def cases(ctx):
         yield c
 
 
+def twins(ctx, case):
+    """The same cube with the highest category of one dimension re-labelled one up (then back down): same shapes,
+    common values and numbers of entries, another inferred extent."""
+    if "sparse" in case or case.get("shape") is not None or not case["dense"] or case["dense"][0].shape[0] > 5000:
+        return
+    if case_number(case) % 5:
+        return
+    dense = [numpy.asarray(d) for d in case["dense"]]
+    d = case_number(case) // 5 % len(dense)
+    a = dense[d]
+    if not a.size:
+        return
+    top = int(a.max())
+    if top == case["commons"][d] or top + 1 == case["commons"][d]:
+        return
+    b = a.copy()
+    b[b == top] = top + 1
+    ext = list(case["extents"])
+    ext[d] = max(ext[d], top + 2)
+    up = dict(case, dense=dense[:d] + [b] + dense[d + 1:], extents=ext, edit_seed=None)
+    ctx.count("class:twin_with_other_top_category")
+    yield up
+    yield dict(case, edit_seed=None)
+
+
 def classify(code, lineno, text):
     t = text.strip()
     if code.co_name != "_walk":
